@@ -14,7 +14,7 @@ GATES = {
               'layout:indented-comment': 2000, 'layout:blank-separated': 500, 'layout:mixed-class-adjacent': 300, 'layout:file-start': 500,
               'layout:file-end': 300, 'layout:after-last-meta-no-postings': 40, 'layout:before-dedent': 300, 'layout:nested-posting-meta': 100,
               'history_steps': 6000, 'handover_claims': 1500, 'manual_claims_judged': 2500, 'restore_checks': 800, 'idempotence_checks': 2500, 'parse_vs_later_checks': 2500,
-              'parse_vs_later_on_copy': 1000, 'restore_api_built': 2000, 'empty_selection_calls': 2000, 'comments_given_to_owners': 1500, 'multi_comment_handovers': 60, 'restore_interleaving:explicit-list': 300, 'histories_continued_on_copy': 150},
+              'parse_vs_later_on_copy': 1000, 'assigned_list_claims': 40, 'restore_api_built': 2000, 'empty_selection_calls': 2000, 'comments_given_to_owners': 1500, 'multi_comment_handovers': 60, 'restore_interleaving:explicit-list': 300, 'histories_continued_on_copy': 150},
     'thorough': {'evaluations': 500000, 'layout:after-last-meta-no-postings': 800},
 }
 RULE = ('case = one document from the comment-layout generator (comment runs, matching or mismatching indentation, adjacent above / below / '
@@ -298,6 +298,10 @@ def run_case(col, r, idx):
         log = []
         handover = {}
         pp = ops.pingpong_ops(root, r, r.randint(6, 14)) if idx % 3 == 2 else []
+        if not pp and idx % 7 == 5:
+            pp = ops.assign_then_claim_ops(root, r)       # a list assigned as a whole, then asked to claim
+            if pp:
+                col.count('assigned_list_claims')
         if not pp and idx % 7 == 3:
             pp = ops.multi_comment_ops(root, r)       # two or three separate comment tokens in one gap, handed from list to list
             if pp:
@@ -372,6 +376,12 @@ def run_case(col, r, idx):
                 col.violation(f'ownership:{v[0]}:after:{op.kind}' + (':refused' if 'refused' in log[-1] else ''), f'after {log[-1]}: {v[1]}',
                               dict(wit, calls=log))
                 return
+            if op.kind in ('claim:assign', 'claim:multi') and 'refused' not in log[-1]:
+                # an owner holds its comments inside its own extent (a list must not reach beyond the model it belongs to)
+                errs = [e for e in walker.check_tree(root) if e[0] in ('child-outside-parent', 'children-overlap', 'first-after-last')]
+                if errs:
+                    col.violation(f'owner-extent:{errs[0][0]}:after:{op.kind}', f'after {log[-1]}: {errs[0][1]}', dict(wit, calls=log))
+                    return
         # after any history, a full auto-claim leaves nothing unowned and obeys the leading/trailing rules for what it attributes
         root.auto_claim_comments()
         col.ev()
